@@ -350,6 +350,40 @@ def order_extra(pid, inner=None):
     return extra
 
 
+def window_extra(pid, inner=None, monitor=False):
+    """Schedules with overtaking (a put_or_update stopped between its store update and its index update, the worker stopped
+    between the store insert and the index registration of a put with time-to-live, other events in between), run on the
+    real cache and on the window model (Window.v), full state compared after every event."""
+    def extra(ctx, res, allsched, impl):
+        if inner:
+            inner(ctx, res, allsched, impl)
+        if ctx.get("replay"):
+            return
+        binary, seed, tier = ctx["binary"], ctx["seed"], ctx["tier"]
+        n = 160 if tier == "quick" else 2500
+        scheds = gen.generate_window(seed + 13, n)
+        for s in corpus_for(pid):
+            if s.get("monitor") == "window":
+                scheds.append(dict(s, name="wc_" + s["name"]))
+        divs, impl_w, _ = corr.correspond(binary, scheds, pid + "_window", window=True)
+        for d in divs:
+            res["divergences"].append(dict(kind="window-schedule", component=d["component"], field=d["field"],
+                                           schedule=dict(name=d["schedule"]["name"], cfg=d["schedule"]["cfg"], events=d["schedule"]["events"][: d["event_index"] + 1]),
+                                           event_index=d["event_index"], event=d["event"], model=d["model"], impl=d["impl"]))
+        stops = sum(1 for s in scheds for r in impl_w.get(s["name"], []) if r["ret"] and r["ret"][0] == 7)
+        if monitor:
+            for s in scheds:
+                for f in monitors.mon_window(monitors.Trace(s, impl_w[s["name"]])):
+                    if pid == "C08" and f["signature"] == "stale-duplicate-index-entry":
+                        continue
+                    res["failures"].append(f)
+        res["evaluations"] += sum(len(impl_w.get(s["name"], [])) for s in scheds)
+        res["traces"] += len(scheds)
+        res["extra"]["window_schedules"] = dict(schedules=len(scheds), stops_inside_calls_or_commands=stops)
+        res["rule"] += "; plus %d schedules with overtaking (%d stops inside a put_or_update or a worker put) compared with the window model" % (len(scheds), stops)
+    return extra
+
+
 def release_extra(pid, inner=None):
     """Thorough tier only: the same correspondence with the harness and /repo built in the release profile (overflow
     wraps instead of panicking) against the model's wrapping branch (c_debug = false)."""
@@ -390,9 +424,9 @@ PROPS.update({
     "C05": dict(module="C05", run=mk("C05", ["general", "queue1", "ttl", "evict", "evict2"], 250, 4000, extra=stress_quiescent_extra("C05", stress2_extra("C05"))), components=["weights", "store", "api", "queue_worker", "ticker", "admission"]),
     "C06": dict(module="C06", run=mk("C06", ["evict2", "evict", "general"], 270, 4000), components=["admission", "weights", "sketch", "tinylfu", "store"]),
     "C07": dict(module="C07", run=mk("C07", ["general", "ttl", "awaited"], 250, 4000), components=["store", "api", "time", "queue_worker"]),
-    "C08": dict(module="C08", run=mk("C08", ["general", "ttl", "roomy", "ttlchain", "upsertpipe"], 250, 4000), components=["store", "api", "ticker", "weights", "time", "queue_worker"]),
+    "C08": dict(module="C08", modules=["C08", "C08_window"], run=mk("C08", ["general", "ttl", "roomy", "ttlchain", "upsertpipe"], 250, 4000, extra=window_extra("C08", monitor=True)), components=["store", "api", "ticker", "weights", "time", "queue_worker"]),
     "C09": dict(module="C09", run=mk("C09", ["ttl", "general", "ttlchain"], 250, 4000), components=["store", "time", "api", "ticker"]),
-    "C10": dict(module="C10", run=mk("C10", ["ttl", "general", "ttlchain"], 250, 4000), components=["ticker", "weights", "store", "api", "time"]),
+    "C10": dict(module="C10", modules=["C10", "C10_window"], run=mk("C10", ["ttl", "general", "ttlchain"], 250, 4000, extra=window_extra("C10", monitor=True)), components=["ticker", "weights", "store", "api", "time"]),
 })
 
 
